@@ -24,7 +24,7 @@ class Fn:
                  throws=False, propagate=(), dummy_ret=None, must=None,
                  call_index=(), lambda_marker=None, pnames=None, static_fn=True,
                  byref_return=False, extra_pre="", extra_post="", kind="function",
-                 expr_rx=None, expr_in_header=False, drop=(), subst_post=(), ctor=False):
+                 expr_rx=None, expr_in_header=False, drop=(), subst_post=(), ctor=False, brace_call=None):
         self.__dict__.update(locals())
         del self.__dict__["self"]
         self.must = dict(must or {})
@@ -81,6 +81,8 @@ def emit_fn(fn):
         if n == 0:
             raise ExtractionError("%s: fold expression not found" % fn.key)
 
+    if fn.brace_call:
+        body, n = X.r_brace_call_arg(body, *fn.brace_call); note("R8b_brace_call", n)
     if fn.subst_post:
         body, f = X.r_subst(body, list(fn.subst_post)); note("R4_subst", sum(c for _, c in f))
     if fn.byref_return:
